@@ -833,6 +833,10 @@ def c19_r3(ctx):
     ds = ctx.P.fn("blob::FileStateVec::download_string")
     ctx.inst("download_string", ds.where(0))
     j = [c for c in ds.calls if "join" in c.path]
+    if not j:
+        # built some other way (a hand-written join with push_str and a `first` flag, fold,
+        # ..): this reader follows `collect + join("\n")` only
+        raise AnalysisError("idiom not recognised: %s does not build its result with join" % ds.id)
     okj = False
     for c in j:
         sep = _const_bytes_of(ds, c.args[1])
